@@ -30,6 +30,7 @@ type BatchResult struct {
 	Reached        []string `json:"reached"`
 	Obs            []string `json:"obs"`
 	KnownHit       []string `json:"known_hit"`
+	Notes          []string `json:"notes,omitempty"`
 	AssumeFailed   bool     `json:"assume_failed"`
 	Panic          string   `json:"panic,omitempty"`
 	UnknownHarness bool     `json:"unknown_harness,omitempty"`
